@@ -124,6 +124,10 @@ def propDec (args impl : List String) : Except String String := do
 def propRaw (args impl : List String) : Except String String := do
   let (t, rest) ← runP ty args
   let (bs, _) ← runP hexTok rest
+  -- the harness decodes into a fresh and into a recycled destination and appends the second
+  -- observation only if it differs
+  if impl.any (fun t => t.startsWith "recycled:") then
+    return "FAIL:decoding-depends-on-what-the-destination-held"
   match impl with
   | ["err"] => return "ok"
   | ["panic"] => return "FAIL:panic"
